@@ -1,4 +1,5 @@
 import SockModel.Model.UriLemmas
+import SockModel.Generated.Funcs
 /-!
 # C12  Address text round-trip, canonical accessors and port fidelity
 
@@ -276,3 +277,29 @@ example : numericReads (ofChars "-18446744073709551615".toList) = some (true, 18
 example : parseHostServ [0x68] (ofChars "-18446744073709551615".toList) = .error .outOfRange := by decide
 
 end SockModel.Uri
+
+/-! ## Source-derived tie (DESIGN.md §0.7)
+
+`SockModel.Gen.*` (Generated/Funcs.lean) is regenerated on every run by tools/cxx2lean.py from the clang AST of
+the CURRENT /repo/src: the numeric-service range guard CheckServiceNumericOutOfRange (address_impl.cpp).
+Each theorem below states that the generated function and the hand-written model function agree for ALL
+arguments; a change of the C++ function changes the generated definition and the theorem stops checking. -/
+namespace SockModel.Props.C12
+open SockModel SockModel.Uri
+theorem tie_rangeOf (neg : Bool) (m : Nat) (h : if neg then m ≤ 2 ^ 63 else m ≤ 2 ^ 63 - 1) :
+    rangeOf neg m =
+      if Gen.ServiceOutOfRange (if neg then -(m : Int) else (m : Int)) then .error .runtimeError else .ok () := by
+  unfold rangeOf Gen.ServiceOutOfRange
+  cases neg
+  · have h' : m ≤ 2 ^ 63 - 1 := by simpa using h
+    have h1 : ¬ m > 2 ^ 63 - 1 := by omega
+    by_cases h2 : m > 65535
+    · have : (m : Int) < 0 ∨ (m : Int) > 65535 := by omega
+      simp [h1, h2, this]
+    · simp [h1, h2] <;> omega
+  · have h' : m ≤ 2 ^ 63 := by simpa using h
+    have h1 : ¬ m > 2 ^ 63 := by omega
+    by_cases h2 : m > 0
+    · simp [h1, h2] <;> omega
+    · simp [h1, h2]
+end SockModel.Props.C12
